@@ -8,4 +8,12 @@ func init() {
 		Level: "model_checking",
 		Rule:  "one harness per notation / message kind / version; a case is a feasible path of the harness (all scalar inputs symbolic); non-trivial = at least one symbolic branch or solver-discharged assertion",
 	})
+	register(&PropCheck{
+		ID:    "C19",
+		Pkgs:  []string{"primitive"},
+		FnRe:  `^VerifC19_`,
+		Level: "model_checking",
+		Gen:   genC19,
+		Rule:  "one harness per (enum type, method) generated from the constants found by go/types in the current tree, plus hand-written capability-table harnesses; a case is a feasible path; the code value is symbolic over its whole domain",
+	})
 }
